@@ -10,7 +10,7 @@ from vf.core import Suite, coq_list, coq_Z
 from vf.gen import pick_weighted
 
 ID = "C04"
-THEOREMS = ["C04_decode_git", "C04_canon_is_git", "C04_decode_long_mode_refuted", "C04_enc_dec", "C04_written_clean_partial",
+THEOREMS = ["C04_decode_git", "C04_git_decode", "C04_canon_is_git", "C04_decode_long_mode_refuted", "C04_enc_dec", "C04_written_clean_partial",
             "C04_written_clean_refuted", "C04_written_gitmodules_refuted", "C04_sort_is_git_order", "C04_never_refuses", "C04_never_refuses_refuted"]
 MODEL_FILES = ["TreeObj.v"]
 MODELLED = ("plumbing/object/tree.go: Tree.Decode (filemode.FromBytes, canonicalTreeMode), Tree.Encode, Tree.Validate, "
@@ -246,7 +246,7 @@ class Main(Suite):
     go_cmd = "c04"
     coq_imports = "From GoGit Require Import Model.TreeObj Spec.GitTree."
     quick_n = 260
-    thorough_n = 6000
+    thorough_n = 2500
     coq_chunk = 200
 
     def gen(self, rng, n, tier):
